@@ -2,6 +2,7 @@ package paillier
 
 import (
 	"crypto/rand"
+	"errors"
 	"io"
 
 	"github.com/cronokirby/saferith"
@@ -68,6 +69,10 @@ func (ct *Ciphertext) Randomize(pk *PublicKey, nonce *saferith.Nat) *saferith.Na
 func (ct *Ciphertext) WriteTo(w io.Writer) (int64, error) {
 	if ct == nil {
 		return 0, io.ErrUnexpectedEOF
+	}
+	// FillBytes truncates silently: a value that does not fit would be written like a smaller one
+	if ct.c.TrueLen() > 8*params.BytesCiphertext {
+		return 0, errors.New("paillier: ciphertext too large")
 	}
 	buf := make([]byte, params.BytesCiphertext)
 	ct.c.FillBytes(buf)
